@@ -224,6 +224,39 @@ type DeleteMetadataLogPayload struct {
 	Key        string `json:"key"`
 }
 
+func (s *DeleteMetadataLogPayload) UnmarshalJSON(data []byte) error {
+	type X struct {
+		TargetType string          `json:"targetType"`
+		TargetID   json.RawMessage `json:"targetId"`
+		Key        string          `json:"key"`
+	}
+	x := X{}
+	err := json.Unmarshal(data, &x)
+	if err != nil {
+		return err
+	}
+	var id interface{}
+	switch strings.ToUpper(x.TargetType) {
+	case strings.ToUpper(MetaTargetTypeAccount):
+		id = ""
+		err = json.Unmarshal(x.TargetID, &id)
+	case strings.ToUpper(MetaTargetTypeTransaction):
+		id, err = strconv.ParseUint(string(x.TargetID), 10, 64)
+	default:
+		return errors.New("unknown type")
+	}
+	if err != nil {
+		return err
+	}
+
+	*s = DeleteMetadataLogPayload{
+		TargetType: x.TargetType,
+		TargetID:   id,
+		Key:        x.Key,
+	}
+	return nil
+}
+
 func NewDeleteMetadataLog(at Time, payload DeleteMetadataLogPayload) *Log {
 	// Since the id is unique and the hash is a hash of the previous log, they
 	// will be filled at insertion time during the batch process.
@@ -283,6 +316,8 @@ func HydrateLog(_type LogType, data []byte) (any, error) {
 		payload = &SetMetadataLogPayload{}
 	case RevertedTransactionLogType:
 		payload = &RevertedTransactionLogPayload{}
+	case DeleteMetadataLogType:
+		payload = &DeleteMetadataLogPayload{}
 	default:
 		panic("unknown type " + _type.String())
 	}
